@@ -1,5 +1,7 @@
 """C11 generator: traffic histories with reloads inserted at arbitrary points (equal rules under new ids / other order /
 with unrelated resources added, removed or changed; via load-for-resource and load-all), and reloads with a changed rule."""
+import importlib.util as _ilu, os as _os
+_ms = _ilu.spec_from_file_location("worldmix", _os.path.join(_os.path.dirname(__file__), "worldmix.py")); MIX = _ilu.module_from_spec(_ms); _ms.loader.exec_module(MIX)
 LEVEL = "proof"
 MODEL = "lean/Sentinel/World.lean (rebuildCtrls, loadFlow / loadHs / loadBr) + the transparency Spec (shadow history) in DriverWorld"
 RULE = ("families: flow reject on the global window, on a private window, flow throttling, warm-up; hotspot QPS reject / throttling / concurrency; circuit breaker. One stateful rule "
@@ -266,6 +268,12 @@ def gen_multi(rng):
     return ops
 
 
-def gen(rng, tier):
+def gen_own(rng, tier):
     n = 500 if tier == "quick" else 25000
     return [gen_case(rng) if i % 5 else gen_multi(rng) for i in range(n)]
+
+
+def gen(rng, tier):
+    """the property's own streams, with every 8th case taken from the shared mixed-world stream (gen/worldmix.py)"""
+    cases = gen_own(rng, tier)
+    return [c if i % 8 != 7 else MIX.gen_mix(rng) for i, c in enumerate(cases)]
